@@ -428,8 +428,78 @@ func fmtOperandsRule(c *Ctx, r *R) {
 	}
 }
 
+// shimErrorValueRule: Go's parsers return a value together with a range error (the nearest
+// representable one: MaxInt32 for ParseInt("99999999999", 10, 32), ±Inf for ParseFloat("1e999"));
+// a shim that delegates with `res, err := pkg.F(..)` hands res on in every result list it
+// returns, also next to the error — not a constant in its place.
+func shimErrorValueRule(c *Ctx, r *R) {
+	n := 0
+	for _, sh := range c.shims() {
+		call, ok := unparen(sh.Value).(*ast.CallExpr)
+		if !ok || c.CalleeName(call) != "NewFunc" || len(call.Args) != 3 {
+			continue
+		}
+		fl, ok := unparen(call.Args[2]).(*ast.FuncLit)
+		if !ok {
+			continue
+		}
+		// res, err := <sh.Pkg>.<F>(..)
+		var res types.Object
+		ast.Inspect(fl.Body, func(m ast.Node) bool {
+			as, ok := m.(*ast.AssignStmt)
+			if !ok || len(as.Lhs) != 2 || len(as.Rhs) != 1 {
+				return true
+			}
+			cc, ok := unparen(as.Rhs[0]).(*ast.CallExpr)
+			if !ok {
+				return true
+			}
+			fn, ok := c.Callee(cc).(*types.Func)
+			if !ok || fn.Pkg() == nil || fn.Pkg().Path() != sh.Pkg {
+				return true
+			}
+			sig := fn.Type().(*types.Signature)
+			if sig.Results().Len() != 2 || !types.Identical(sig.Results().At(1).Type(), types.Universe.Lookup("error").Type()) {
+				return true
+			}
+			if id, ok := as.Lhs[0].(*ast.Ident); ok && id.Name != "_" {
+				res = c.Obj(id)
+			}
+			return true
+		})
+		if res == nil {
+			continue
+		}
+		ast.Inspect(fl.Body, func(m ast.Node) bool {
+			rs, ok := m.(*ast.ReturnStmt)
+			if !ok || len(rs.Results) != 1 {
+				return true
+			}
+			cl, ok := unparen(rs.Results[0]).(*ast.CompositeLit)
+			if !ok || len(cl.Elts) < 2 {
+				return true
+			}
+			n++
+			uses := false
+			ast.Inspect(cl.Elts[0], func(q ast.Node) bool {
+				if id, ok := q.(*ast.Ident); ok && c.Obj(id) == res {
+					uses = true
+				}
+				return true
+			})
+			r.check(uses, "error value "+sh.Key, c.Pos(rs), "the delegated function's value is returned next to its error",
+				"the shim "+sh.Key+" returns `"+c.Src(cl.Elts[0])+"` instead of the value "+sh.Pkg+"."+sh.Name+" returned with the error: ParseInt(\"99999999999\", 10, 32) gives 0 where Go gives 2147483647 (the clamped value comes with the range error), ParseFloat(\"1e999\", 64) gives 0 instead of +Inf")
+			return true
+		})
+	}
+	if n == 0 {
+		r.ok("error value", "no shim returns a (value, error) pair from a delegated call")
+	}
+}
+
 func ruleTabShim(c *Ctx, r *R) {
 	fmtOperandsRule(c, r)
+	shimErrorValueRule(c, r)
 	manual := 0
 	for _, sh := range c.shims() {
 		pos := c.Pos(sh.Call)
